@@ -43,7 +43,9 @@ def factorize_arrow_arr(
 
 @nb.njit(cache=True)
 def _monotonic_factorization(arr_list, total_len):
-    codes = np.empty(total_len, dtype=np.uint32)
+    # same dtype as the codes of the general route: they are combined with those
+    # (which use -1 for nulls) and handed to kernels which mark rows with -1
+    codes = np.empty(total_len, dtype=np.int64)
     labels = np.empty(total_len, dtype=arr_list[0].dtype)
 
     arr_num = 0
@@ -104,7 +106,7 @@ def monotonic_factorization(arr: ArrayType1D) -> Tuple[int, np.ndarray, pd.Index
     codes : np.ndarray
         Integer codes representing the factorized values. Only elements up to
         `cutoff` contain valid codes; remaining elements are uninitialized.
-        Shape: (len(arr),), dtype: np.uint32
+        Shape: (len(arr),), dtype: np.int64
     labels : pd.Index
         Unique values found during monotonic factorization as a pandas Index.
         Only elements up to the number of unique values found are valid; remaining
